@@ -367,7 +367,7 @@ impl Property for C01 {
         vec![
             ("real".into(), crate::corpus::project_dirs().len() as u64 * 2),
             ("real-logging".into(), 6),
-            ("synthetic".into(), tier.pick(16, 96)),
+            ("synthetic".into(), tier.pick(32, 160)),
             ("library-stdout".into(), tier.pick(400, 8000)),
             ("thor".into(), crate::corpus::ctehexml_files().len() as u64),
             ("negative".into(), 4),
